@@ -56,11 +56,16 @@ func (i *inputString) getCurrentAsByte() byte {
 		i.eof = true
 		return 0
 	}
-	var pos int
-	for j := 0; j < i.pointer; j++ {
-		pos += utf8.RuneLen(i.runes[j])
+	// Find the byte offset of the current code point by decoding the original string: an invalid byte is one
+	// byte wide there although it shows up as U+FFFD (three bytes when re-encoded) in i.runes.
+	j := 0
+	for pos := range i.s {
+		if j == i.pointer {
+			return i.s[pos]
+		}
+		j++
 	}
-	return i.s[pos]
+	return 0
 }
 
 func (i *inputString) rewindLast() {
